@@ -101,6 +101,7 @@ func (w *World) newInterp(s *Solver, opts *ExploreOpts) *Interp {
 		spec:        defaultSpec(),
 		refine:      map[string][2]*big.Int{},
 		dom:         map[string]*smallDom{},
+		onceDone:    map[*StructV]bool{},
 		entangled:   map[string]bool{},
 		varsMemo:    map[string][]string{},
 		Stats:       &RunStats{},
@@ -172,17 +173,28 @@ func setOriginDeep(v Value, o Origin, seen map[interface{}]bool) {
 		if x.R == nil {
 			return
 		}
-		if c, ok := x.R.(*Cell); ok {
+		switch c := x.R.(type) {
+		case *Cell:
 			if seen[c] {
 				return
 			}
 			seen[c] = true
-			c.Org = o
+			if c.Org != OrgGlobal {
+				c.Org = o
+			}
 			setOriginDeep(c.V, o, seen)
+		case FieldRef:
+			setOriginDeep(c.S, o, seen)
+		case ElemRef:
+			setOriginDeep(c.A, o, seen)
 		}
 	case IfaceV:
 		if x.T != nil {
 			setOriginDeep(x.V, o, seen)
+		}
+	case TupleV:
+		for _, e := range x {
+			setOriginDeep(e, o, seen)
 		}
 	}
 }
@@ -285,7 +297,7 @@ func (w *World) Explore(name string, opts ExploreOpts) *HarnessReport {
 	}
 	active := 0
 	stop := false
-	findingKeys := map[string]bool{}
+	findingCount := map[string]int{}
 
 	worker := func() {
 		solver, err := NewSolver(opts.SolverName, opts.TimeoutMs)
@@ -407,13 +419,19 @@ func (w *World) Explore(name string, opts ExploreOpts) *HarnessReport {
 						key += "|" + n
 					}
 				}
-				if findingKeys[key] {
+				// several counterexamples per key: a write may be unobservable on one
+				// input (it stores the value already there) and visible on another
+				limit := 1
+				if ev.Kind == "sharedwrite" || ev.Msg == sharedWriteMsg(ev.Msg) {
+					limit = 4
+				}
+				if findingCount[key] >= limit {
 					continue
 				}
-				if len(rep.Findings) >= opts.MaxFindings*16 {
+				if len(rep.Findings) >= opts.MaxFindings*24 {
 					continue
 				}
-				findingKeys[key] = true
+				findingCount[key]++
 				model := ev.Model
 				if model == nil {
 					model = map[string]*Term{}
@@ -456,3 +474,12 @@ func (r *HarnessReport) Summary() string {
 
 var _ = big.NewInt
 var _ = os.Stderr
+
+// sharedWriteMsg returns msg itself if it is one of the harness assertions
+// about shared writes (they get several counterexamples, like monitor events).
+func sharedWriteMsg(msg string) string {
+	if strings.Contains(msg, "wrote to") || strings.Contains(msg, "modified") {
+		return msg
+	}
+	return ""
+}
